@@ -200,7 +200,7 @@ pub fn gen_script(c: &mut Cur, p: &Profile, flavor: Flavor, nleaves_hint: usize)
     }
     // a stream that knows how many items it has left says so (adapters may
     // consult size_hint; it must never change what they do)
-    let hint = if flavor == Flavor::S { c.weighted(&[(0u8, 170), (1, 52), (2, 34)]) } else { 0 };
+    let hint = if flavor == Flavor::S { c.weighted(&[(0u8, 160), (1, 50), (2, 32), (3, 14)]) } else { 0 };
     // some children notify from their destructor (a channel endpoint that wakes
     // its peer when dropped): "any waker ever handed out" may be invoked then
     let dropwake = c.coin(20);
@@ -443,6 +443,7 @@ pub fn gen_case(bytes: &[u8], p: &Profile) -> Case {
     let post_polls = if c.coin(p.p_post) { 1 + c.choice(2) as u8 } else { 0 };
     let storm = !p.fair && c.coin(p.p_storm);
     let unwind_drop = c.coin(128);
+    let repoll_after_panic = !unwind_drop && c.coin(128);
     Case {
         root,
         schedule,
@@ -452,5 +453,6 @@ pub fn gen_case(bytes: &[u8], p: &Profile) -> Case {
         post_polls,
         storm,
         unwind_drop,
+        repoll_after_panic,
     }
 }
